@@ -1,0 +1,22 @@
+//! Helpers to deserialize untrusted bytes.
+
+use cosmian_crypto_core::bytes_ser_de::Deserializer;
+
+use crate::Error;
+
+/// Reads a length-prefixed vector of bytes from the given deserializer.
+///
+/// The announced length is checked against the number of remaining bytes
+/// *before* reading the vector, which guarantees that no more memory than the
+/// size of the input is allocated.
+pub(crate) fn read_vec(de: &mut Deserializer) -> Result<Vec<u8>, Error> {
+    let remaining = de.value();
+    let announced_length = Deserializer::new(remaining).read_leb128_u64()?;
+    if (remaining.len() as u64) < announced_length {
+        return Err(Error::ConversionFailed(format!(
+            "cannot read a vector of {announced_length} bytes: only {} bytes remain",
+            remaining.len()
+        )));
+    }
+    de.read_vec().map_err(Error::from)
+}
